@@ -323,6 +323,8 @@ var funcRegistry = map[string]interface{}{
 	"cat":    func(a string, rest ...string) string { return a + strings.Join(rest, "") },
 	"ident":  func(v interface{}) interface{} { return v },
 	"shout":  func(s string) string { return s + "!" },
+	"bumpf":  func(p *float64) string { *p += 2; return "" },
+	"bumps":  func(p *string) string { *p += "!"; return "" },
 	"sum": func(xs ...int) int {
 		t := 0
 		for _, x := range xs {
